@@ -25,9 +25,6 @@ def augment_exception_message_and_reraise(exception, message):
     """Acts as a proxy for an exception with an augmented message."""
     __module__ = type(exception).__module__
 
-    def __init__(self):
-      pass
-
     def __getattr__(self, attr_name):
       return getattr(exception, attr_name)
 
@@ -35,9 +32,26 @@ def augment_exception_message_and_reraise(exception, message):
       return str(exception) + message
 
   ExceptionProxy.__name__ = type(exception).__name__
-
-  proxy = ExceptionProxy()
   ExceptionProxy.__qualname__ = type(exception).__qualname__
+
+  try:
+    # Build the proxy the way the original was built (without running any
+    # `__init__`), so that classes whose `__new__` takes arguments (e.g. exception
+    # groups) work and `args` is preserved.
+    proxy = type(exception).__new__(ExceptionProxy, *exception.args)
+  except Exception:  # pylint: disable=broad-except
+    raise exception  # Can't be proxied: better the original than another error.
+  # State kept in C-level members (errno, value, lineno, ...) isn't reachable
+  # through `__getattr__`; copy whatever doesn't already read the same.
+  for attr_name in dir(exception):
+    if attr_name.startswith('__'):
+      continue
+    try:
+      value = getattr(exception, attr_name)
+      if not callable(value) and getattr(proxy, attr_name) is not value:
+        setattr(proxy, attr_name, value)
+    except Exception:  # pylint: disable=broad-except
+      pass
   raise proxy.with_traceback(exception.__traceback__)
 
 
